@@ -463,6 +463,11 @@ class C04(Prop):
             if len(w) <= 65535:
                 self.add(out, m, w)
         st.append(("big", out))
+        out = []
+        for rr in rdata_offset_sweep(rng, 8 if tier == "quick" else 16, 24 if tier == "quick" else 40):
+            m = ('Dns', 7, ('F', 1, 0, 0, 0, 0, 0, 0, 0, 0), [], [rr], [], [])
+            self.add(out, m, G.render_dns(m, G.Layout(rng, mode="lib"))[0])
+        st.append(("rdata-relative-vs-absolute-offsets", out))
         w_ = []
         for name, cs in st:
             w_ += ["W" + c[1:] for c in cs]
@@ -615,6 +620,25 @@ def name_seq_msg(names, spacer=0, rng=None):
         an = [('RR', 10, ('N', []), 1, 0, ('G', [bytes(spacer)]))]
     return ('Dns', 1, ('F', 0, 0, 0, 0, 0, 0, 0, 0, 0), [], an,
             [('RR', 2, ('N', list(n)), 1, 0, ('G', [('N', list(n2))])) for n, n2 in zip(names[0::2], names[1::2] + [[]])], [])
+
+
+def rdata_offset_sweep(rng, amax=16, bmax=24):
+    """records with two RDATA names where the second points at the first and the first into the owner (nested
+    pointers), for every pair of first-label lengths: the RDATA-relative offset of the second name sweeps across the
+    absolute offsets that the pointers refer to (a decoder that mixes the two coordinate systems shows here).
+    -> list of (abstract record, stand-alone wire)"""
+    base = [b"example", b"org"]
+    fields = {'SOA': lambda n1, n2: [('N', n1), ('N', n2), 1, 2, 3, 4, 5], 'MINFO': lambda n1, n2: [('N', n1), ('N', n2)],
+              'RP': lambda n1, n2: [('N', n1), ('N', n2)], 'PX': lambda n1, n2: [10, ('N', n1), ('N', n2)]}
+    out = []
+    for tname, mk in fields.items():
+        for a in range(1, amax + 1):
+            for b in range(1, bmax + 1):
+                owner = [b"x" * a] + base
+                n1 = [b"y" * b] + base
+                n2 = [b"admin"] + n1
+                out.append(('RR', G.TYPES[tname], ('N', owner), 1, 300, ('G', mk(n1, n2))))
+    return out
 
 
 def many_names_msg(count, zones=7, reuse=True):
@@ -944,6 +968,7 @@ class C10(Prop):
 
     def __init__(self):
         self.pair = {}
+        self.sweep_expect = {}
 
     def streams(self, tier, rng):
         n = 800 if tier == "quick" else 8000
@@ -972,8 +997,15 @@ class C10(Prop):
         ns = ["E DomainName " + G.canon(G.rnd_name(rng)) for _ in range(n // 4)]
         fl = ["E Flags " + G.canon(G.rnd_flags(rng)) for _ in range(200)]
         dec = S.element_cases(rng, n)
+        # stand-alone records whose second RDATA name is reached through nested pointers, every offset geometry
+        sweep = []
+        for r in rdata_offset_sweep(rng, 12 if tier == "quick" else 20, 16 if tier == "quick" else 30):
+            rn = G.Renderer(G.Layout(rng, mode="lib"))
+            rn.rr(r)
+            sweep.append(S.d("RR", bytes(rn.buf)))
+            self.sweep_expect[sweep[-1]] = R.canon_fold(G.canon(r))
         return [("rr", rr), ("record-structs", srr), ("question", qs), ("name", ns), ("flags", fl),
-                ("first-in-message", first), ("decode-elements", dec)]
+                ("first-in-message", first), ("decode-elements", dec), ("standalone-nested-pointer-offsets", sweep)]
 
     def view(self, case, line):
         if case.startswith("D "):
@@ -988,6 +1020,12 @@ class C10(Prop):
             return "implementation panicked: " + line[:200]
         if case.startswith("D "):
             d = parse_d(line)
+            exp = self.sweep_expect.get(case)
+            if exp is not None:
+                if d["status"] != "OK":
+                    return "stand-alone record in the encoder's own layout is rejected by its own decoder: %s" % d.get("err", line[:120])
+                if R.canon_fold(d["canon"]) != exp:
+                    return "stand-alone record decodes to another value: %s, expected %s" % (d["canon"][:200], exp[:200])
             if d["status"] == "OK":
                 if d["reenc"].startswith("ERR"):
                     return "decoded element does not re-encode: " + d["reenc"]
